@@ -7,6 +7,8 @@
 
 mod alloc;
 mod canon;
+mod gs1;
+mod gs2;
 mod games;
 mod idcheck;
 mod gen_games;
@@ -35,6 +37,8 @@ fn entries() -> Vec<(&'static str, EntryFn)> {
     let mut v: Vec<(&'static str, EntryFn)> = Vec::new();
     v.extend(reader::entries());
     v.extend(valve::entries());
+    v.extend(gs1::entries());
+    v.extend(gs2::entries());
     v.extend(master::entries());
     v.extend(settings::entries());
     v.extend(games::entries());
